@@ -638,3 +638,59 @@ ONEHOT = [([0, 1, 1, 0, 0, 3], [1, 1, 0, 0, 0, 0], 1), ([0, 1, 1, 0, 3, 0], [1, 
           ([0, 1, 1, 3, 3, 0], [1, 1, 0, 0, 0, 0], 1), ([0, 1, 1, 0, 0, 0], [1, 1, 0, 3, 3, 0], 1),
           ([0, 1, 1, 0, 0, 0], [1, 1, 0, 0, 0, 3], 1), ([0, 2, 0, 0, 0, 5], [0, 0, 0, 0, 0, 0], 1),
           ([0, 2, 0, 0, 0, 0], [0, 0, 0, 0, 0, 5], 1)]
+
+
+def similar_permutations(rng, n, m, swaps=6, late=False):
+    """m complete rankings without ties over 1..n that differ from the identity by a few adjacent transpositions (when
+    `late`, only among the last third of the elements: the elements that get the highest internal ids)"""
+    out = []
+    for _ in range(m):
+        p = list(range(1, n + 1))
+        for _s in range(rng.randint(0, swaps)):
+            i = rng.randrange(2 * n // 3, n - 1) if late else rng.randrange(n - 1)
+            p[i], p[i + 1] = p[i + 1], p[i]
+        out.append([[e] for e in p])
+    return out
+
+
+def permutation_cases(rng, count, cfgs, flags=(1,), sizes=(17, 18, 24, 32, 40, 64, 100)):
+    """complete datasets without ties, 17 elements and more, similar rankings (shortcuts taken on is_complete and
+    without_ties, narrow integer types: 17 elements give 136 pairs, more than a signed byte holds)"""
+    out = []
+    for k in range(count):
+        n = sizes[k % len(sizes)]
+        D = similar_permutations(rng, n, rng.randint(2, 6), swaps=rng.choice([2, 6, 20]))
+        if k % 3 == 0:
+            D.append([list(b) for b in D[0]])          # a duplicated ranking
+        if k % 5 == 0:
+            D.append(list(reversed(D[0])))             # and an opposite one
+        for cfg in cfgs:
+            for flag in flags:
+                out.append({"n": n, "D": D, "cfg": cfg, "flag": flag, "sch": list([P_UNI1, P_UNI5, P_PSE5, P_IND1][k % 4]),
+                            "how": k, "off": [0, 100][k % 2], "form": k % 4})
+    return out
+
+
+def wide_eq_stage(name, cases_fn):
+    from .. import widerun
+    return Stage(name, "Trace_Wide", widerun.run_wide_eq, cases_fn, lambda r: r["out"] == "ok" and r["a"] != r["b"],
+                 widerun.init, aux={"prop": "C17"}, chunk=20, procs=8)
+
+
+def wide_eq_cases(rng, count, sizes):
+    """pairs of datasets of complete rankings without ties: equal, equal up to the order of the rankings, or different
+    only by one adjacent transposition (in the middle of a wide ranking / among the last elements)"""
+    out = []
+    for k in range(count):
+        n = sizes[k % len(sizes)]
+        a = similar_permutations(rng, n, rng.randint(1, 3), swaps=4)
+        b = [[list(x) for x in r] for r in a]
+        kind = k % 4
+        if kind == 1:
+            b = list(reversed(b))
+        elif kind >= 2:
+            r = b[rng.randrange(len(b))]
+            i = rng.randrange(n // 3, 2 * n // 3) if kind == 2 else rng.randrange(max(n - 8, 1), n - 1)
+            r[i], r[i + 1] = r[i + 1], r[i]
+        out.append({"n": n, "a": a, "b": b, "how": k, "off": [0, 100][k % 2]})
+    return out
